@@ -165,3 +165,68 @@ func TestRegressionNilEmbeddedPointerIsRefused(t *testing.T) {
 	}
 	roundTrip(t, api, &regEmbPtrHolder{RegEmbInner: &RegEmbInner{A: 9}, B: 1, C: 2})
 }
+
+// ---- auditors' findings on the JSON form ----
+
+type regTypeClash struct {
+	Type uint8 `serix:""`
+}
+
+type regInl struct {
+	A uint8 `serix:""`
+}
+
+type regInlHolder struct {
+	I *regInl `serix:",inlined,optional"`
+	Z uint8   `serix:""`
+}
+
+// jsonRoundTripOrRefusal: "the JSON form of every value that form can express" - JSONEncode may refuse a value, but
+// what it produces has to decode back to an equal value.
+func jsonRoundTripOrRefusal(t *testing.T, api *serix.API, in any) (refused bool, problem string) {
+	t.Helper()
+	ctx := context.Background()
+	j, err := api.JSONEncode(ctx, in)
+	if err != nil {
+		return true, ""
+	}
+	out := reflect.New(reflect.TypeOf(in).Elem())
+	if err := api.JSONDecode(ctx, j, out.Interface()); err != nil {
+		return false, "JSONDecode of JSONEncode's output " + string(j) + " failed: " + err.Error()
+	}
+	if !reflect.DeepEqual(in, out.Interface()) {
+		return false, "JSON round trip of " + string(j) + " changed the value"
+	}
+
+	return false, ""
+}
+
+// A struct with an object type and a field whose key is "type": the field overwrote the struct's type code in the map
+// form (fixed in /repo: MapEncode refuses keys that are used twice).
+func TestRegressionJSONKeyUsedTwice(t *testing.T) {
+	api := serix.NewAPI()
+	if err := api.RegisterTypeSettings(regTypeClash{}, serix.TypeSettings{}.WithObjectType(uint8(8))); err != nil {
+		t.Fatal(err)
+	}
+	if _, problem := jsonRoundTripOrRefusal(t, api, &regTypeClash{Type: 3}); problem != "" {
+		t.Fatal(problem)
+	}
+	roundTripBinary(t, api, &regTypeClash{Type: 3})
+}
+
+func roundTripBinary(t *testing.T, api *serix.API, in any) {
+	t.Helper()
+	ctx := context.Background()
+	b, err := api.Encode(ctx, in)
+	if err != nil {
+		t.Fatalf("encode: %v", err)
+	}
+	out := reflect.New(reflect.TypeOf(in).Elem())
+	n, err := api.Decode(ctx, b, out.Interface())
+	if err != nil || n != len(b) {
+		t.Fatalf("decode: n=%d/%d err=%v", n, len(b), err)
+	}
+	if !reflect.DeepEqual(in, out.Interface()) {
+		t.Fatalf("round trip: %+v != %+v", in, out.Interface())
+	}
+}
